@@ -191,6 +191,7 @@ FAMILIES["cluster"] = {
                    532: "C03: a node probed itself", 533: "C03: a node probed a peer it held Dead/Left",
                    534: "C03: a peer that was live throughout two passes of the probe cursor was not probed in the second",
                    535: "C03: a pass over a stable member list did not probe every live peer exactly once",
+                   546: "C04: while membership claims were being applied, a worker answering pings / reading the broadcast queue / reading the member list never came back (lock-order inversion: the packet listener of a healthy member wedges and it stops acknowledging probes)",
                    540: "C04: a suspect/dead accusation was put on the wire in a healthy cluster",
                    541: "C04: a leave event fired for a member that had not left",
                    542: "C04: a health score left zero", 545: "C04: a member that a node already held as departed re-entered its view", 543: "C04: a node held a responsive member Suspect/Dead (a leaver may only be held Left)"},
